@@ -39,6 +39,10 @@ ASSUMPTIONS = [
     're-use of one options dict by the host, host calls of script functions after a run and host callables (hostApply / hostTry / '
     'hostFail) are not expressible in the Lean model (it executes one model from one state): implementation-side oracles only - every '
     'step must equal the same step on new options and the prediction of the independent statement interpreter RbSim',
+    'reading of "statements run in order" for the statements that an ARGUMENT of a call executes (family H): they have run when the '
+    'pending call is made, so the call reaches what its name is bound to after its arguments were evaluated, left to right (RbSim and '
+    'the Lean evaluator agree on this order); the error reported when the callee is undefined AND an argument fails is the '
+    "argument's (sub-cases effect-only / fails pin this order of the implementation, it is not spelt out in the property statement)",
 ]
 TRUSTED = ['reference statement interpreter (first label of that name in the same list, unknown-label error, return, function '
            'binding, per-list label scope) and the model enumerator/mutator in harness/props/C08.py (the property oracle)',
@@ -587,6 +591,93 @@ def arity_oracles(params, model, max_statements):
     return bad
 
 
+# (D2) call histories of ONE binding: the same function value (by name from the top level, by name from the body of another
+#     function, through one systemPartial value) is called two or three times with DIFFERENT argument counts; every call reports
+#     its parameters and a local, pushes to its rest array in place and finally assigns to every parameter and to the local.
+#     Closed form from the calling convention, call by call: what a call sees depends on its own arguments only - an omitted
+#     parameter is null (not what an earlier call got or assigned), an empty rest array is empty, a local starts undefined.
+def hist_text(v):
+    if v is None:
+        return 'null'
+    if isinstance(v, list):
+        return '[' + ','.join(hist_text(x) for x in v) + ']'
+    return str(v)
+
+
+def hist_type(v):
+    return 'null' if v is None else 'array' if isinstance(v, list) else 'number'
+
+
+def hist_args(i, m, caller):
+    args = [11 + 10 * i + ix for ix in range(m)]
+    if caller == 'partial' and args:
+        args[0] = 7                                                        # the argument bound by systemPartial
+    return args
+
+
+def history_model(k, laa, ms, caller):
+    params = PARAM_SETS['fresh'][:k]
+    body = [s_expr(e_call('systemLog', e_bin('+', e_bin('+', e_bin('+', e_str(p + ' '), e_call('systemType', e_var(p))), e_str(' ')), e_var(p))))
+            for p in params]
+    if params and LAA_SPELLINGS[laa]:
+        body += [s_expr(e_call('arrayPush', e_var(params[-1]), {'number': 99})),
+                 s_expr(e_call('systemLog', e_bin('+', e_str('pushed '), e_var(params[-1]))))]
+    body += [s_assign('res', e_call('arrayNew', *[e_var(p) for p in params])),
+             s_expr(e_call('systemLog', e_bin('+', e_str('loc '), e_var('loc')))),
+             s_assign('loc', e_str('set'))]
+    body += [s_assign(p, e_str('dirty')) for p in params]
+    body.append({'return': {'expr': e_var('res')}})
+    fdef = {'name': 'f', 'statements': body}
+    if k:
+        fdef['args'] = params
+    if LAA_SPELLINGS[laa] is not None:
+        fdef['lastArgArray'] = LAA_SPELLINGS[laa]
+    stmts = [{'function': fdef}]
+    if caller == 'partial':
+        stmts.append(s_assign('h', e_call('systemPartial', e_var('f'), {'number': 7})))
+    calls = []
+    for i, m in enumerate(ms):
+        args = [{'number': a} for a in hist_args(i, m, caller)]
+        calls.append(s_assign('out%d' % i, e_call('h', *args[1:]) if caller == 'partial' else e_call('f', *args)))
+    outs = {'return': {'expr': e_call('arrayNew', *[e_var('out%d' % i) for i in range(len(ms))])}}
+    if caller == 'nested':
+        stmts += [{'function': {'name': 'g', 'statements': calls + [outs]}}, {'return': {'expr': e_call('g')}}]
+    else:
+        stmts += calls + [outs]
+    return {'statements': stmts}
+
+
+def history_expected(k, laa, ms, caller):
+    params = PARAM_SETS['fresh'][:k]
+    results, log = [], []
+    for i, m in enumerate(ms):
+        args = hist_args(i, m, caller)
+        bound = []
+        for ix in range(k):
+            if LAA_SPELLINGS[laa] and ix == k - 1:
+                bound.append(args[ix:])
+            else:
+                bound.append(args[ix] if ix < m else None)
+        for p, v in zip(params, bound):
+            log.append(p + ' ' + hist_type(v) + ' ' + hist_text(v))
+        if params and LAA_SPELLINGS[laa]:
+            bound[-1] = bound[-1] + [99]
+            log.append('pushed ' + hist_text(bound[-1]))
+        log.append('loc null')
+        results.append(bound)
+    return {'result': progen.value_to_wire(results), 'log': log}
+
+
+def history_cases():
+    for k in range(4):
+        for laa in LAA_SPELLINGS:
+            for caller in ('top', 'nested', 'partial'):
+                counts = range(1 if caller == 'partial' else 0, k + 2)
+                seqs = [[a, b] for a in counts for b in counts] + [[k + 1, counts[0], k + 1], [k, counts[0], counts[0]], [counts[0], k, counts[0]]]
+                for ms in seqs:
+                    yield [k, laa, ms, caller]
+
+
 # (E) fresh values: an expression that builds a container is evaluated several times (a loop, a function called twice, a second
 #     execution of the model) and the container it returned is modified in place in between.  Every evaluation must yield the
 #     same fresh value: a value that aliases a part of the model, of the function model or of an earlier evaluation shows as a
@@ -742,7 +833,11 @@ def stream_directed(ctx, driver=True):
                     'host-supplied globals / script-assigned globals of the parameter names; the body reports each parameter (type, '
                     'conditional jump on != null), assigns to the last one and returns the array of them; additionally: closed-form '
                     'result and log from the calling convention (parameter-binding) and the same result and log as without any '
-                    'globals (callee-sees-only-its-parameters); (E) fresh values: 17 container-building expressions (arrayNew/objectNew '
+                    'globals (callee-sees-only-its-parameters); (D2) call histories of one binding: a function with k = 0..3 parameters '
+                    '(lastArgArray absent/false/true) called two or three times with every pair of argument counts 0..k+1 (and three '
+                    'triples) by name from the top level, by name from another function body, and through ONE systemPartial value; each '
+                    'call reports its parameters and a local, pushes to its rest array in place, then assigns to every parameter and the '
+                    'local; closed form call by call (parameter-binding): a call sees its own arguments only; (E) fresh values: 17 container-building expressions (arrayNew/objectNew '
                     'with 0..2 arguments, nested, through arrayCopy / a variadic script function / a script function / if() / || / a '
                     'group; with args: [] and without the args member) x in-place library functions (arrayPush/Set/Pop, objectSet on the '
                     'Lean host; arrayShift/Extend/Delete/Sort, objectDelete/Assign implementation-only) x re-evaluation by a second '
@@ -806,6 +901,20 @@ def stream_directed(ctx, driver=True):
             model = arity_model(*case[1:])                 # a fresh object: an earlier run may have changed the one in the chunk
             for name, expected, actual, extra in arity_oracles(case[1:], model, MAX_EXH):
                 ctx.witness(name, dict({'model': arity_model(*case[1:]), 'globals': g, 'max': MAX_EXH, 'history': []}, **extra),
+                            expected, actual)
+        # (D2): call histories of one binding
+        chunk = []
+        for params in history_cases():
+            chunk.append((['call-history'] + params, history_model(*params), {},
+                          ['call-history', params[1], 'k%d' % params[0], 'calls%d' % len(params[2]), 'caller-' + params[3],
+                           'fewer-than-before' if any(b < a for a, b in zip(params[2], params[2][1:])) else 'not-fewer']))
+        run_chunk(ctx, 'exec-directed', st, chunk, MAX_EXH, 400, lambda m, o: True)
+        for case, _, g, _ in chunk:
+            got = run_impl(history_model(*case[1:]), g, MAX_EXH)
+            expected = history_expected(*case[1:])
+            actual = {key: got.get(key, got.get('error', got.get('hostexc'))) for key in ('result', 'log')}
+            if actual != expected:
+                ctx.witness('parameter-binding', {'model': history_model(*case[1:]), 'globals': g, 'max': MAX_EXH, 'history': [], 'expect': expected},
                             expected, actual)
         # (E): fresh values; mutators outside the Lean host's library run the implementation oracles only
         chunks = {True: [], False: []}
@@ -1072,7 +1181,7 @@ def stream_random(ctx, n, driver=True, name='exec-random'):
 #                systemGlobalSet('name', e)   ['arr', [e...]] = arrayNew(e...)
 #   statements   ['def', name, tag, body] (parameters n, cb)   ['set', v, e]   ['do', e]   ['logn', tag]   ['logv', tag, e]
 #                ['jle0', label] = jumpif (n <= 0) label   ['jump', label]   ['label', label]   ['ret', e]   ['ret0']
-#                ['include', url]
+#                ['include', url]   ['jnz', label, e] = jumpif (e) label (e a number or null)
 #
 # What the implementation does with a call of a number, a systemPartial of a non-function or arithmetic on a function value is
 # not the subject of C08: RbSim raises RbUnmodelled there and the generators drop such programs.
@@ -1125,6 +1234,8 @@ def rb_stmt(s):
         return s_expr(e_call('systemLog', e_bin('+', e_str(s[1] + ' '), rb_expr(s[2]))))
     if kind == 'jle0':
         return {'jump': {'label': s[1], 'expr': e_bin('<=', e_var('n'), {'number': 0})}}
+    if kind == 'jnz':
+        return {'jump': {'label': s[1], 'expr': rb_expr(s[2])}}
     if kind == 'jump':
         return {'jump': {'label': s[1]}}
     if kind == 'label':
@@ -1186,6 +1297,8 @@ def rb_text(stmts, indent=''):
             out.append(indent + "systemLog('" + s[1] + " ' + " + rb_expr_text(s[2]) + ')')
         elif kind == 'jle0':
             out.append(indent + 'jumpif (n <= 0) ' + s[1])
+        elif kind == 'jnz':
+            out.append(indent + 'jumpif (' + rb_expr_text(s[2]) + ') ' + s[1])
         elif kind == 'jump':
             out.append(indent + 'jump ' + s[1])
         elif kind == 'label':
@@ -1425,13 +1538,18 @@ class RbSim:
                 self.log.append(s[1] + ' ' + self.text(self.var('n', locals_)))
             elif kind == 'logv':
                 self.log.append(s[1] + ' ' + self.text(self.ev(s[2], locals_)))
-            elif kind in ('jle0', 'jump'):
+            elif kind in ('jle0', 'jump', 'jnz'):
                 taken = True
                 if kind == 'jle0':
                     n = self.var('n', locals_)
                     if n is not None and not rb_is_num(n):
                         raise RbUnmodelled('n <= 0')
                     taken = n is None or n <= 0             # null is less than every number
+                elif kind == 'jnz':
+                    cond = self.ev(s[2], locals_)
+                    if cond is not None and not rb_is_num(cond):
+                        raise RbUnmodelled('truth value')
+                    taken = cond is not None and cond != 0   # null and 0 are false, every other number is true
                 if taken:
                     if s[1] not in first:
                         raise RbError(f'Unknown jump label "{s[1]}"')
@@ -1858,6 +1976,186 @@ def rebind_directed_cases():
                     yield [keep, how, form, where]
 
 
+# (H) binding changed while the arguments of a pending call are evaluated.  Statements run in order and a function statement binds
+#     its global when it is executed - also when the body that holds it runs because an ARGUMENT of a call calls it.  The call
+#     `fa(rbx(0, null), null)` therefore calls whatever `fa` names once its arguments have been evaluated: the function
+#     bound by the function statement that rbx executed (nested, two calls deep, in an included file), the value stored by
+#     systemGlobalSet / by a top-level assignment of an included file, or nothing ('Undefined function' after systemGlobalSet to
+#     null, although a function was bound when the evaluation of the call began); and a name that is bound for the first time
+#     by the argument is defined.  'effect-only' / 'fails': the argument's function runs (its log lines, its global, its
+#     statements in the count, its own error) before the call of an undefined name is reported.
+ARG_INITIALS = ['bound', 'unbound']
+ARG_HOWS = ['nested-def', 'deep-def', 'gset-fn', 'gset-null', 'include', 'include-assign', 'effect-only', 'fails']
+ARG_FORMS = ['first', 'second', 'in-add', 'via-ident', 'both']
+ARG_SITES = ['set', 'ret', 'jump', 'logv', 'operand']
+ARG_SCOPES = ['top', 'in-body', 'in-include']
+
+
+def argbind_directed(initial, how, form, site, scope, hoist=False):
+    """-> (statements, files).  old fa logs 'fa1 n' and returns 0, the new one logs 'fa2 n' and returns 20, fc (the value that
+    systemGlobalSet / the included assignment store) logs 'fc1 n' and returns 30: which function the pending call reached is
+    visible in the log, in the result and in the direction of the conditional jump.
+    hoist: the argument calls of rbx are statements of their own (t = rbx(0, null), t2 = rbx(1, null)) right before the statement
+    that holds the pending call, which then reads t / t2 - statements run in order, so that is the same computation."""
+    files = {}
+    stmts = []
+    new_body = rb_simple_body('fa2', 20)
+    if initial == 'bound':
+        stmts.append(['def', 'fa', 'fa1', rb_simple_body('fa1', 0)])
+    stmts.append(['def', 'fc', 'fc1', rb_simple_body('fc1', 30)])
+    stmts.append(['def', 'fid', 'fid1', [['ret', ['var', 'n']]]])
+    if how == 'nested-def':
+        effect = [['def', 'fa', 'fa2', new_body]]
+    elif how == 'deep-def':
+        stmts.append(['def', 'rby', 'rby1', [['def', 'fa', 'fa2', new_body], ['ret0']]])
+        effect = [['do', rb_call('rby', ['num', 0], ['null'])]]
+    elif how == 'gset-fn':
+        effect = [['do', ['gset', 'fa', ['var', 'fc']]]]
+    elif how == 'gset-null':
+        effect = [['do', ['gset', 'fa', ['null']]]]
+    elif how == 'include':
+        files['lib.bare'] = [['def', 'fa', 'fa2', new_body]]
+        effect = [['include', 'lib.bare']]
+    elif how == 'include-assign':           # an include runs in the global scope, also when a function body includes it
+        files['lib.bare'] = [['set', 'fa', ['var', 'fc']]]
+        effect = [['include', 'lib.bare']]
+    elif how == 'effect-only':
+        effect = [['do', ['gset', 'k2', ['num', 7]]]]
+    else:
+        effect = [['jump', 'nowhere']]
+    stmts.append(['def', 'rbx', 'rbx1', [['logn', 'rbx1']] + effect + [['logn', 'rbx2'], ['ret', ['num', 1]]]])
+    if initial == 'bound':                  # the name has been called before: whatever is remembered about it is warm
+        stmts += [['set', 'r0', rb_call('fa', ['num', 1], ['null'])], ['logv', 'r0', ['var', 'r0']]]
+    inner = rb_call('rbx', ['num', 0], ['null'])
+    inner2 = rb_call('rbx', ['num', 1], ['null'])
+    before = []
+    if hoist:
+        before = [['set', 't', inner]] + ([['set', 't2', inner2]] if form == 'both' else [])
+        inner, inner2 = ['var', 't'], ['var', 't2']
+    if form == 'first':
+        pending = rb_call('fa', inner, ['null'])
+    elif form == 'second':
+        pending = rb_call('fa', ['num', 1], inner)
+    elif form == 'in-add':
+        pending = rb_call('fa', ['add', ['num', 1], inner], ['null'])
+    elif form == 'via-ident':
+        pending = rb_call('fa', rb_call('fid', inner, ['null']), ['null'])
+    else:                                   # both arguments run rbx: left to right
+        pending = rb_call('fa', inner, inner2)
+    if site == 'set':
+        at = [['set', 'r', pending], ['logv', 'r', ['var', 'r']]]
+    elif site == 'ret':
+        at = [['ret', pending]]
+    elif site == 'jump':
+        at = [['jnz', 'taken', pending], ['logv', 'nottaken', ['num', 0]], ['label', 'taken']]
+    elif site == 'logv':
+        at = [['logv', 'v', pending]]
+    elif form in ('second', 'via-ident'):   # operands run left to right: a call of fa in the LEFT operand still reaches the old one
+        at = [['set', 'r', ['add', rb_call('fa', ['num', 5], ['null']), pending]], ['logv', 'r', ['var', 'r']]]
+    else:
+        at = [['set', 'r', ['add', pending, rb_call('fa', ['num', 5], ['null'])]], ['logv', 'r', ['var', 'r']]]
+    at = before + at
+    if scope == 'top':
+        stmts += at
+    elif scope == 'in-body':
+        stmts.append(['def', 'site', 'site1', [['logn', 'site1']] + at + [['ret', ['num', 9]]]])
+        stmts += [['set', 's', rb_call('site', ['num', 3], ['null'])], ['logv', 's', ['var', 's']]]
+    else:
+        files['site.bare'] = at
+        stmts.append(['include', 'site.bare'])
+    stmts += [['set', 'r1', rb_call('fa', ['num', 2], ['null'])], ['logv', 'r1', ['var', 'r1']], ['ret', ['arr', [['var', 'r1']]]]]
+    return stmts, files
+
+
+def argbind_directed_cases():
+    for initial in ARG_INITIALS:
+        for how in ARG_HOWS:
+            for form in ARG_FORMS:
+                for site in ARG_SITES:
+                    for scope in ARG_SCOPES:
+                        yield [initial, how, form, site, scope]
+
+
+def argbind_session(params, hoist=False):
+    stmts, files = argbind_directed(*params, hoist=hoist)
+    return {'progs': [stmts], 'files': files, 'steps': [['exec', 0, {}], ['exec', 0, {}], ['call', 'fa', [2, None]]], 'max': RB_MAX}
+
+
+def argbind_hoistable(params):
+    """not when a call in the LEFT operand runs before the arguments of the pending call (hoisting would move rbx before it)"""
+    return not (params[3] == 'operand' and params[2] in ('second', 'via-ident'))
+
+
+def argbind_seen(session):
+    """what an observer of one execution sees, without the temporaries of the hoisted spelling and without the statement count"""
+    models = [rb_model(p) for p in session['progs']]
+    out = rb_canon(run_session_impl(dict(session, steps=session['steps'][:1]), models, rb_files_text(session.get('files')), False)[0])
+    out = {k: v for k, v in out.items() if k != 'count'}
+    out['globals'] = [kv for kv in out['globals'] if kv[0] not in ('t', 't2')]
+    return out
+
+
+def argbind_hoist_oracle(params):
+    """argument-as-own-statement, a relation on the implementation alone: `r = fa(rbx(0, null), null)` and `t = rbx(0, null)`
+    followed by `r = fa(t, null)` give the same result / error, log and globals.  -> None or (expected, actual)"""
+    if not argbind_hoistable(params):
+        return None
+    expected, actual = argbind_seen(argbind_session(params, hoist=True)), argbind_seen(argbind_session(params))
+    return None if expected == actual else (expected, actual)
+
+
+# (I) a function statement binds its global WHEN IT IS EXECUTED, in whatever statement list it stands: a call placed before it does
+#     not see it, a function statement after a return / behind a taken jump / after a failing statement binds nothing (the name
+#     keeps what it had: nothing, an older script function, a host callable), two function statements of one name take effect in
+#     order.  The exhaustive stream has these shapes in the script's own list; here they stand in a function body, in an included
+#     file and in a file included from a function body as well.
+ORDER_SHAPES = ['call-before-def', 'def-after-return', 'def-jumped-over', 'def-not-jumped-over', 'def-after-failure',
+                'def-after-undefined-call', 'two-defs']
+ORDER_PLACES = ['top', 'body', 'include', 'include-in-body']
+ORDER_INITIALS = ['unbound', 'bound', 'host']
+
+
+def order_directed(shape, place, initial):
+    """-> (statements, files, globals of the execution)"""
+    new = ['def', 'fa', 'fa2', rb_simple_body('fa2', 20)]
+    first_call = [['set', 'r', rb_call('fa', ['num', 1], ['null'])], ['logv', 'r', ['var', 'r']]]
+    at = {
+        'call-before-def': first_call + [new],
+        'def-after-return': [['ret', ['num', 5]], new],
+        'def-jumped-over': [['jump', 'end'], new, ['label', 'end']],
+        'def-not-jumped-over': [['jnz', 'end', ['num', 0]], new, ['label', 'end']],
+        'def-after-failure': [['jump', 'nowhere'], new],
+        'def-after-undefined-call': [['do', rb_call('nosuch', ['num', 0], ['null'])], new],
+        'two-defs': [new] + first_call + [['def', 'fa', 'fa3', rb_simple_body('fa3', 30)], ['set', 'q', rb_call('fa', ['num', 1], ['null'])],
+                                         ['logv', 'q', ['var', 'q']]],
+    }[shape]
+    files = {}
+    stmts = []
+    if initial == 'bound':
+        stmts += [['def', 'fa', 'fa1', rb_simple_body('fa1', 0)], ['set', 'r0', rb_call('fa', ['num', 1], ['null'])], ['logv', 'r0', ['var', 'r0']]]
+    if place in ('include', 'include-in-body'):
+        files['lib.bare'] = at
+        at = [['include', 'lib.bare']]
+    if place in ('body', 'include-in-body'):
+        stmts.append(['def', 'site', 'site1', [['logn', 'site1']] + at + [['ret', ['num', 9]]]])
+        at = [['set', 's', rb_call('site', ['num', 3], ['null'])], ['logv', 's', ['var', 's']]]
+    stmts += at
+    stmts += [['set', 'r1', rb_call('fa', ['num', 2], ['null'])], ['logv', 'r1', ['var', 'r1']], ['ret', ['arr', [['var', 'r1']]]]]
+    return stmts, files, ({'fa': {'host': 'fail'}} if initial == 'host' else {})
+
+
+def order_directed_cases():
+    for shape in ORDER_SHAPES:
+        for place in ORDER_PLACES:
+            for initial in ORDER_INITIALS:
+                yield [shape, place, initial]
+
+
+def order_session(params):
+    stmts, files, g = order_directed(*params)
+    return {'progs': [stmts], 'files': files, 'steps': [['exec', 0, g], ['exec', 0, g], ['call', 'fa', [2, None]]], 'max': RB_MAX}
+
+
 class RbGen:
     """random re-binding programs: several function statements per name, aliases, systemPartial values, callbacks,
     systemGlobalSet, assignments to function names, nested function statements, includes; bodies that call by name in return
@@ -1982,17 +2280,48 @@ class RbGen:
         self.bound.update(first)                       # a body may call a function that is defined after it
         stmts = [self.funcdef(name, 0) for name in first]
         results = []
-        def call(callee):
+        def call(callee, n_expr=None):
             var = f'r{len(results)}'
             results.append(var)
-            if self.host and rng.random() < 0.35:
+            if n_expr is None and self.host and rng.random() < 0.35:
                 return [['set', var, ['call', rng.choice(['hostApply', 'hostTry', 'hostTry']), [['var', callee], ['num', rng.randint(0, 4)]]]],
                         ['logv', var, ['var', var]]]
-            return [['set', var, rb_call(callee, ['num', rng.randint(0, 4)], self.cb_expr(False))], ['logv', var, ['var', var]]]
+            if n_expr is None:
+                n_expr = ['num', rng.randint(0, 4)]
+                if rng.random() < 0.15:                    # an argument that runs script functions itself
+                    n_expr = rb_call(self.callee(), n_expr, self.cb_expr(False))
+            return [['set', var, rb_call(callee, n_expr, self.cb_expr(False))], ['logv', var, ['var', var]]]
         for _ in range(rng.randint(3, 9)):
-            kind = rng.choice(['action', 'action', 'call', 'call', 'call', 'label', 'history'])
+            kind = rng.choice(['action', 'action', 'call', 'call', 'call', 'label', 'history', 'arg-history'])
             if kind == 'action':
                 stmts += self.action(0, False)
+            elif kind == 'arg-history':
+                # the name is re-bound by a function that runs while the ARGUMENTS of a call of that name are evaluated
+                name = rng.choice(sorted(self.bound & set(RB_NAMES)) or RB_NAMES)
+                how = rng.choice(['def', 'def', 'deep', 'gset', 'gset-null', 'include', 'nothing'])
+                if how == 'def':
+                    effect = [self.funcdef(name, 2) if rng.random() < 0.4 else ['def', name, self.tag(name), rb_simple_body('s' + str(self.tags), 10 * self.tags)]]
+                elif how == 'deep':
+                    stmts.append(['def', 'rbd', self.tag('rbd'), [['def', name, self.tag(name), rb_simple_body('s' + str(self.tags), 10 * self.tags)]]])
+                    effect = [['do', rb_call('rbd', ['num', 0], ['null'])]]
+                elif how == 'gset':
+                    effect = [['do', ['gset', name, ['var', rng.choice(sorted(self.bound - {name}) or RB_NAMES)]]]]
+                elif how == 'gset-null':
+                    effect = [['do', ['gset', name, ['null']]]]
+                elif how == 'include':
+                    url = f'lib{len(self.files)}.bare'
+                    self.files[url] = [['def', name, self.tag(name), rb_simple_body('i' + str(self.tags), 10 * self.tags)]]
+                    effect = [['include', url]]
+                else:
+                    effect = []
+                tag = self.tag('rb')
+                stmts.append(['def', 'rb', tag, [['logn', tag]] + effect + [['ret', ['num', rng.randint(0, 3)]]]])
+                inner = rb_call('rb', ['num', 0], ['null'])
+                stmts += call(name, rng.choice([inner, inner, ['add', ['num', 1], inner], rb_call('rb', inner, ['null'])]))
+                if how == 'gset-null':
+                    self.bound.discard(name)
+                else:
+                    self.bind(name)
             elif kind == 'history':
                 # keep the value of a function name, re-bind the name, call the kept value (and the name)
                 name, var = rng.choice(sorted(self.bound & set(RB_NAMES)) or RB_NAMES), rng.choice(RB_VARS)
@@ -2184,7 +2513,22 @@ def stream_rebind(ctx, n_random, driver=True, name='exec-rebind'):
                     'if() / through fb) x the old function value is kept (alias variable, systemPartial, callback argument, local alias '
                     'of a running function, still executing, called by name earlier in the same invocation) x the global fa is re-bound (second function statement, function statement '
                     'in another body, systemGlobalSet to a function / to null, assignment = a local shadow inside a body, include) x at '
-                    'the top level (called-before: in a function called by the body) / from inside the running body - all 360; random = 1..3 names with several function statements each, '
+                    'the top level (called-before: in a function called by the body) / from inside the running body - all 360; '
+                    '(H) binding changed while the ARGUMENTS of a pending call are evaluated: fa(rbx(0, null), null) where the body of rbx '
+                    'executes a function statement named fa (nested / two calls deep / in an included file), systemGlobalSet of fa to '
+                    'another function / to null, an included top-level assignment to fa, only logs and sets another global, or fails '
+                    'itself x fa bound (and called) before / not bound at all x the argument call as first / second argument, inside an '
+                    'addition, through an identity function, in both arguments x the pending call in an assignment, a return, the '
+                    'condition of a jump, a log line, an operand of + next to another call of fa x at the top level / in a function body / '
+                    'in an included file - all 1200; the pending call reaches what the name is bound to AFTER its arguments ran '
+                    '(session-closed-form by RbSim) and gives the same result, log and globals as with the argument call written as a '
+                    'statement of its own before it (argument-as-own-statement, implementation only); '
+                    '(I) a function statement takes effect when it is executed: a call before the function statement, a function statement '
+                    'after a return / behind a taken jump / behind a jump that is not taken / after a statement that fails (unknown label, '
+                    'undefined function), two function statements of one name with calls in between x in the script list / a function '
+                    'body / an included file / a file included from a function body x the name not bound / bound to an older script '
+                    'function / a host callable before - all 84, then the host calls the name; '
+                    'random = 1..3 names with several function statements each (and names re-bound from inside the arguments of their own call), '
                     'aliases, systemPartial, systemGlobalSet, assignments to function names, nested function statements, includes '
                     '(present / missing / broken), bodies calling by name, by alias and by callback in every return form, labels named '
                     'alike in callers and callees; a quarter of the random programs also call through the host callables hostApply(fn, n) '
@@ -2201,6 +2545,19 @@ def stream_rebind(ctx, n_random, driver=True, name='exec-rebind'):
             stmts, files = rebind_directed(*params)
             session = {'progs': [stmts], 'files': files, 'steps': [['exec', 0, {}], ['exec', 0, {}], ['call', 'fa', [2, None]]], 'max': RB_MAX}
             cases.append((['rebind'] + params, session, ['directed', 'keep-' + params[0], 'rebind-' + params[1], 'form-' + params[2], params[3]]))
+        for params in argbind_directed_cases():
+            cases.append((['argbind'] + params, argbind_session(params),
+                          ['directed', 'argbind', 'initially-' + params[0], 'argument-' + params[1], 'argform-' + params[2], 'site-' + params[3],
+                           'scope-' + params[4]]))
+            found = argbind_hoist_oracle(params)
+            if found is not None:
+                hoisted, plain = argbind_session(params, hoist=True), argbind_session(params)
+                ctx.witness('argument-as-own-statement',
+                            {'argbind': params, 'model': rb_model(plain['progs'][0]), 'hoisted_model': rb_model(hoisted['progs'][0]),
+                             'file_texts': rb_files_text(plain['files']), 'hoisted_file_texts': rb_files_text(hoisted['files']),
+                             'globals': {}, 'max': RB_MAX}, *found)
+        for params in order_directed_cases():
+            cases.append((['order'] + params, order_session(params), ['directed', 'order', 'shape-' + params[0], 'place-' + params[1], 'initially-' + params[2]]))
         for ix in range(n_random):
             host = rng.random() < 0.25
             found = rebind_random(rng, host)
@@ -2391,6 +2748,8 @@ def replay(witness):
     inp = witness['input']
     if inp.get('host_globals'):                 # {'host': kind} -> the host callable
         inp = dict(inp, globals=session_globals(inp['globals']))
+    if 'argbind' in inp:                        # (H): the program and its hoisted spelling are rebuilt from the parameters
+        return argbind_hoist_oracle(inp['argbind']) is not None
     if 'session' in inp:                        # (F), (G): the whole session again, the oracle of the witness on any step
         return bool(session_failures(inp['session'], witness['oracle'])[0])
     if 'shared' in inp:                         # rebuild the object graph with the shared jump object (JSON cannot hold it)
@@ -2443,12 +2802,14 @@ LEVEL_TEXT = ('Theorems about the Lean mirror of _execute_script_helper/_script_
               'atoms and length 6 over 9 atoms (thorough), random models <= 40 statements with duplicate labels, dangling jumps, dropped call '
               'arguments and in-place modification of every assigned value; re-binding histories (a function name re-bound by a function statement / '
               'systemGlobalSet / assignment / include while the old function value is kept by an alias, systemPartial, a callback or is still '
-              'running: 300 directed + random programs); sessions of 2..150 executions and host calls on one options dict with runtime errors '
+              'running: 360 directed + random programs; the name re-bound, unbound or bound for the first time by a function that runs while the '
+              'arguments of a pending call of that name are evaluated: 1200 directed); sessions of 2..150 executions and host calls on one options dict with runtime errors '
               'raised at nesting depth 0..51 (implementation-side: same outcome as on new options, as predicted by RbSim); '
               'directed families (duplicate labels, shared statement objects, '
               'calls without args, the call-arity x parameter-name x globals matrix, container-building expressions re-evaluated after an '
               'in-place modification); implementation oracles: independent reference statement interpreter, model dicts unchanged, two '
               'executions identical, closed-form parameter binding, independence of a function from globals named like its parameters, '
+              'an argument call written as a statement of its own, '
               'same fresh value at every evaluation.')
 LEVEL_NOTE = ('Trusted: Lean kernel; the correspondence harness, its reference interpreter and generators. The theorems are about the Lean '
               'model; model immutability and repeatability are properties of the Python objects and are checked by sampling only '
